@@ -1160,7 +1160,7 @@ def run(tier):
                      "failures the property names: the legality filter (retain by is_legal_move().is_ok()); the probe testing the MOVER's king between make and unmake; the check/attacker mirror tables; castling "
                      "= rights && empty path && unattacked path for the same kind, refused on the wrong turn; the eight castling masks equal the FIDE squares (b1/b8 may be attacked, d1/d8 and c1/c8 may not) and "
                      "Black = White << 56; the four castling moves and both rook tables; the pawn direction/rank table and its mirror, double push, the two guarded en-passant captures, four promotions on the "
-                     "back rank; Kind dispatch; the capture annotation (en passant looks at (start.rank, dest.file)) and nothing else rewritten on a generated move; full 0..64 square loops; `Square + Delta` folded over "
+                     "back rank; the plain generators of knight, bishop, rook, queen and king (target mask = the piece's own attack function & !own pieces per colour, every set bit of it yields exactly Ply::new(square, s, Kind::P(colour)), nothing else does); Kind dispatch; the capture annotation (en passant looks at (start.rank, dest.file)) and nothing else rewritten on a generated move; full 0..64 square loops; `Square + Delta` folded over "
                      "8x8 squares x 25 deltas (off the board stays off the board) and the eight direction steps; Kind::get_color, Square::get_mask, Bitboard::count_ones over their whole domain; "
                      "get_attacked_squares = union over exactly the attackers' squares."),
         assumptions=["attack tables are exact (C06)", "make/unmake are exact inverses (C02)"],
